@@ -187,7 +187,7 @@ func runChildren(c *core.Ctx, jobs []childJob, ceilingMiB int) []*core.Trace {
 		var werr error
 		select {
 		case werr = <-done:
-		case <-time.After(time.Duration(20+3*len(batch)) * time.Second):
+		case <-time.After(time.Duration(120+12*len(batch)) * time.Second):
 			timedOut = true
 			cmd.Process.Kill()
 			werr = <-done
